@@ -23,6 +23,12 @@ def gen_case(rng, tier, want_acts=True, allow_defer=True, long_run=False, hosts_
   n_ops = n_ops or (rng.randint(120, 400) if long_run else rng.randint(5, 40))
   sigs = spec['sigs'][:-1]
   ops = [(('lifo' if rng.random() < 0.25 else 'fifo'), ('ZZ' if rng.random() < 0.05 else rng.choice(sigs))) for _ in range(n_ops)]
+  if clears and rng.random() < 0.3:
+    # ... and a handler or two call clear_spy() in the middle of their own step
+    keys = sorted(spec['react'])
+    for key in rng.sample(keys, min(len(keys), rng.randint(1, 2))):
+      acts = spec['react'][key].setdefault('acts', [])
+      acts.insert(rng.randint(0, len(acts)), ['clear_spy'])
   if clears and rng.random() < 0.5:
     # the client empties the full spy / the trace once or twice, early in the run (so that long runs fill the rings again)
     for _ in range(rng.randint(1, 2)):
